@@ -113,6 +113,17 @@ CHECKS = {
              'vectorised, scalar-only and positive-frequency-only (force_real) responses, outputs compared with the integers.',
         note='Only integer FIR responses (exact); Butterworth / attenuation curves, Hermitian symmetrisation of genuinely complex '
              'responses and the energy clause for arbitrary |H| <= 1 are not decided. Open known finding D10 (delay beyond N wraps).'),
+    'C14': dict(
+        spec='EventTree.tla', design='4.9',
+        text='EventTree.tla models Event trees (insertion-ordered particle list + child index lists) with add_children by list '
+             'or single particle and foreign parents, and the shower-fraction decision of choose_shower_fractions (kind x '
+             'flavour x inelasticity x secondaries, retry loop over candidate secondary showers); TLC checks IterOnce, '
+             'OneParent, LevelsPartition, ChildrenComeLater, SumAtMostOne, CCeSumsToOne, NCAllHadronic on all trees of <= 6 '
+             'particles and all 840 decision cases; every edge of the state graph is executed on pyrex.Event / Particle / '
+             'GQRSInteraction / CTWInteraction and iteration, len, get_children, get_parent, get_from_level and the fractions '
+             'are compared.',
+        note='Only the discrete core: distributions of interaction type and inelasticity, cross-section values, monotonicity and '
+             'interaction lengths are numerical and NOT decided by this check. The secondary sampler is scripted via subclass.'),
 }
 
 NOT_APPLICABLE = {
